@@ -1165,6 +1165,7 @@ def required_rules_failing(ctx, prop, rules):
         sub.no_share = True
         sub.inline_set = ctx.inline_set
         sub.desugar = bool(getattr(mod, "DESUGAR", False))
+        sub.splice = getattr(mod, "SPLICE_LOOP_HELPERS", False)
         try:
             mod.run(sub)
             _REQ_CACHE[ck] = [r for r in sub.records if r.verdict == "violation"]
@@ -1382,6 +1383,7 @@ def run(ctx):
     sub.no_share = True
     sub.inline_set = ctx.inline_set
     sub.desugar = bool(getattr(c07, "DESUGAR", False))
+    sub.splice = getattr(c07, "SPLICE_LOOP_HELPERS", False)
     c07.run(sub)
     # only the rules that bear on WHICH KIND of value sits under a variable; rules about the value itself (payload unaltered, overwritten
     # rather than kept, appended in order, returned through views) cannot make a stored kind disagree with its variable
